@@ -38,15 +38,21 @@ var c11Scripts = []struct {
 	{"props", `var o = {}; for (var i = 0; ; i++) { o["k" + (i % 7)] = i; delete o["k" + ((i + 3) % 7)]; _.props.tick(); }`, true},
 	{"finite", `for (var i = 0; i < 5; i++) { _.props.tick(); } return {"done": true};`, false},
 	{"emit-then-loop", `_.out({"early": 1}); for (;;) { _.props.tick(); }`, true},
+	// executions that end by an ordinary failure must not leave anything behind either
+	{"throws", `_.props.tick(); throw new Error("boom");`, false},
+	{"reference-error", `_.props.tick(); return {"x": undefinedVariable + 1};`, false},
+	{"bad-emit", `_.props.tick(); _.out(0/0); return {};`, false},
+	{"bad-return", `_.props.tick(); return 42;`, false},
 }
 
 type c11Exec struct {
-	script   int
-	via      string // exec | step | walk
-	mode     int    // error routing for step/walk: 0 none, 1 branches, 2 node
-	deadline time.Duration
-	cancelAt int // >0: cancel() is called inside the N-th tick
-	tickD    time.Duration
+	script    int
+	via       string // exec | step | walk
+	mode      int    // error routing for step/walk: 0 none, 1 branches, 2 node
+	deadline  time.Duration
+	cancelAt  int // >0: cancel() is called inside the N-th tick
+	tickD     time.Duration
+	longLived bool // run under the long-lived parent context (terminating scripts only)
 }
 
 func runC11(c *sim.Ctx, t *testing.T) {
@@ -64,6 +70,9 @@ func runC11(c *sim.Ctx, t *testing.T) {
 			p.cancelAt = 1 + c.Intn(12, "cancelat")
 			p.deadline = time.Hour
 		}
+		if !c11Scripts[p.script].endless && p.cancelAt == 0 && c.Bool("longlived") {
+			p.longLived = true
+		}
 		plans[i] = p
 	}
 	interp := ecmascript.NewInterpreter()
@@ -77,6 +86,7 @@ func runC11(c *sim.Ctx, t *testing.T) {
 	}
 	outs := make([]outcome, n)
 	var lg *sim.Log
+	var outlived []string
 	interruptAt := map[string]int{} // exec task -> log length when its watcher was released after ictx.Done()
 	leak := sim.Bubble(c, t, func(s *sim.Sched) {
 		s.MaxSteps = 6000
@@ -97,7 +107,10 @@ func runC11(c *sim.Ctx, t *testing.T) {
 			s.Go(fmt.Sprintf("x%d", i), func(tk *sim.Task) {
 				var ctx context.Context
 				var cancel context.CancelFunc
-				if p.deadline < 0 {
+				if p.longLived {
+					// a host's long-lived service context: nobody cancels it after the call
+					ctx, cancel = root, func() {}
+				} else if p.deadline < 0 {
 					ctx, cancel = context.WithDeadline(root, time.Now().Add(p.deadline))
 				} else {
 					ctx, cancel = context.WithTimeout(root, p.deadline)
@@ -135,7 +148,8 @@ func runC11(c *sim.Ctx, t *testing.T) {
 					case 2:
 						spec.ActionErrorNode = "aerr"
 					}
-					if err := spec.Compile(ctx, core.InterpretersMap{"ecmascript": interp}, true); err != nil {
+					// a host compiles its specs once, long before (and under another context than) any step
+					if err := spec.Compile(context.Background(), core.InterpretersMap{"ecmascript": interp}, true); err != nil {
 						o.err = "compile: " + err.Error()
 						break
 					}
@@ -175,18 +189,34 @@ func runC11(c *sim.Ctx, t *testing.T) {
 			})
 		}
 		s.Run()
+		// every call has returned (or the run is over) while the long-lived parent
+		// context is still alive: whatever an execution started must be gone by now
+		for _, g := range s.LiveSpawned() {
+			if strings.Contains(g, "Interpreter.Exec") {
+				outlived = append(outlived, g)
+			}
+		}
 		cancelAll()
 		s.Drain(500)
 	})
 	c.SimTime = c.Sched.SimTime
 	evs := lg.Events()
+	allReturned := true
+	for _, o := range outs {
+		if !o.returned {
+			allReturned = false
+		}
+	}
+	if allReturned && len(outlived) > 0 {
+		c.Violate("timeout:leak:outlives-call", "%d goroutine(s) started by Interpreter.Exec were still alive after every execution had returned (parent context not cancelled): %v", len(outlived), outlived)
+	}
 	shape := ""
 	for i, p := range plans {
 		o := outs[i]
 		name := fmt.Sprintf("x%d", i)
 		sc := c11Scripts[p.script]
 		desc := fmt.Sprintf("execution %d: script %q via %s (error mode %d), deadline %v, cancel at tick %d, tick %v", i, sc.name, p.via, p.mode, p.deadline, p.cancelAt, p.tickD)
-		shape += fmt.Sprintf("%s/%s/%d/%v/%d;", sc.name, p.via, p.mode, p.deadline, p.cancelAt)
+		shape += fmt.Sprintf("%s/%s/%d/%v/%d/%v;", sc.name, p.via, p.mode, p.deadline, p.cancelAt, p.longLived)
 		c.Count("executions")
 		if !o.returned {
 			c.Violate("timeout:still-running", "%s: did not return within %v of simulated time / %d scheduler steps", desc, c.Sched.SimTime, c.Sched.Steps)
